@@ -2,3 +2,5 @@ import Proofs.Map
 import Proofs.Toks
 import Proofs.Structure
 import Proofs.Range
+import Proofs.FlatInsertCore
+import Proofs.ShallowKeys
